@@ -189,6 +189,8 @@ theorem wireBytes_shape (fs : List OutFrame) : ∀ c : Conn,
       simp only [wireBytes]
       obtain ⟨e, s, h⟩ := ih (encodeHeaders c fields).1
       rw [h]; exact ⟨_, _, rfl⟩
+    | hfrag sid es len => simp only [wireBytes]; exact ih c
+    | cont sid eh len fl => simp only [wireBytes]; exact ih c
     | data sid len es => simp only [wireBytes]; exact ih c
     | rst sid code => simp only [wireBytes]; exact ih c
     | settingsAck => simp only [wireBytes]; exact ih c
